@@ -40,13 +40,19 @@ using namespace xv;
 // See docs/c09.md, "Findings".
 //   date-canonical-negative-year   getCanonicalRepresentation of an xs:date with a negative year: heap-buffer-overflow
 //                                  (1 XMLCh) in XMLDateTime::getDateCanonicalRepresentation (buffer sized without the sign)
-static const char* KNOWN_DEFECTS[] = {"date-canonical-negative-year", nullptr};
+//   list-canonical-empty           getCanonicalRepresentation of the empty list (valid for every list type without minLength):
+//                                  ListDatatypeValidator::getCanonicalRepresentation allocates 2*strlen = 0 XMLCh and stores the terminator
+static const char* KNOWN_DEFECTS[] = {"date-canonical-negative-year", "list-canonical-empty", nullptr};
 static bool g_guards = true;
 static const char* known_defect(DatatypeValidator* dv, int xs, const std::vector<XMLCh>& lex) {
     if (!g_guards) return nullptr;
     bool isDate = xs == XSValue::dt_date;
     for (DatatypeValidator* b = dv; b && !isDate; b = b->getBaseValidator()) isDate = b->getType() == DatatypeValidator::Date;
     if (isDate && lex[0] == chDash) return KNOWN_DEFECTS[0];
+    bool isList = false;   // a union delegates to the member that accepts the literal: the empty string is accepted by a list member only
+    for (DatatypeValidator* b = dv; b && !isList; b = b->getBaseValidator())
+        isList = b->getType() == DatatypeValidator::List || b->getType() == DatatypeValidator::Union;
+    if (isList && lex[0] == 0) return KNOWN_DEFECTS[1];
     return nullptr;
 }
 
